@@ -154,7 +154,10 @@ def merge(outs):
         m["sim_nanos"] += o["sim_nanos"]
         for k in ("faults", "probes", "outcomes"):
             for kk, vv in (o.get(k) or {}).items():
-                m[k][kk] = m[k].get(kk, 0) + vv
+                if kk.startswith("max:"):
+                    m[k][kk] = max(m[k].get(kk, 0), vv)
+                else:
+                    m[k][kk] = m[k].get(kk, 0) + vv
         for sig, v in (o.get("violations") or {}).items():
             cur = m["violations"].get(sig)
             if cur is None:
